@@ -2602,9 +2602,12 @@ impl<'a, R: FileManager> FrontendCtx<'a, R> {
         &mut self,
         q: &TsEntityName,
         file: BffFileName,
+        syntax_file: &BffFileName,
     ) -> Res<AddressedQualifiedValue> {
+        // `q` is looked up in `file`, but it is written in `syntax_file` (they differ for
+        // `typeof import("./x").A.B`): diagnostics about it belong to the file its span is in.
         let anchor = Anchor {
-            f: file.clone(),
+            f: syntax_file.clone(),
             s: q.span(),
         };
         match q {
@@ -2612,6 +2615,7 @@ impl<'a, R: FileManager> FrontendCtx<'a, R> {
                 let left_part = self.get_addressed_qualified_value_from_entity_name(
                     &ts_qualified_name.left,
                     file.clone(),
+                    syntax_file,
                 )?;
                 if let AddressedQualifiedValue::StarOfFile(other_file) = left_part {
                     let new_addr = ModuleItemAddress {
@@ -2699,6 +2703,7 @@ impl<'a, R: FileManager> FrontendCtx<'a, R> {
         let left_value = self.get_addressed_qualified_value_from_entity_name(
             &ts_qualified_name.left,
             file.clone(),
+            &anchor.f,
         )?;
 
         self.member_access_qualified_value(&left_value, &ts_qualified_name.right.sym, anchor)
